@@ -19,11 +19,12 @@ func init() {
 }
 
 type genTx struct {
-	raw    []byte
-	isBlob bool
-	inner  []byte
-	blobs  []blobSpec
-	canon  []byte // canonical encoding when raw is a non-canonically encoded blob tx (nil otherwise)
+	raw     []byte
+	isBlob  bool
+	inner   []byte
+	blobs   []blobSpec
+	canon   []byte // canonical encoding when raw is a non-canonically encoded blob tx (nil otherwise)
+	noBlobs bool   // a hand-built BlobTx without blobs (only offered through the Builder API)
 }
 
 type sqCase struct {
@@ -1020,6 +1021,7 @@ func streamBHist(c *Ctx) {
 		c.newCase()
 		sc := c.genSquareCase([]int{1, 2, 2, 4, 4, 8, 8, 16})
 		c.setClass(sc.class)
+		c.goOnly = false
 		b, err := square.NewBuilder(sc.max, sc.thr)
 		c.emit(fmt.Sprintf("b new %d %d", sc.max, sc.thr), okErr(err))
 		if err != nil {
@@ -1036,7 +1038,9 @@ func streamBHist(c *Ctx) {
 		freshNow := func() *square.Builder {
 			f, _ := square.NewBuilder(sc.max, sc.thr)
 			for _, t := range accepted {
-				if t.isBlob {
+				if t.noBlobs {
+					f.AppendBlobTx(&tx.BlobTx{Tx: t.inner})
+				} else if t.isBlob {
 					btx, _, _ := tx.UnmarshalBlobTx(t.raw)
 					f.AppendBlobTx(btx)
 				} else {
@@ -1177,6 +1181,25 @@ func streamBHist(c *Ctx) {
 				if b.CurrentSize() != ne.total() {
 					fail("C06", fmt.Sprintf("running estimate is %d after the append, the closed-form worst case is %d", b.CurrentSize(), ne.total()))
 				}
+				if t.isBlob && sc.class == "" && c.rng.Chance(1, 12) {
+					// a hand-built blob transaction WITHOUT blobs (or nil), offered right after an accepted one: whatever
+					// the builder answers, it must answer the same as a fresh builder replaying the accepted appends, and
+					// the rest of this history is checked by the Go-side oracles only (there is no byte encoding of such
+					// a transaction to send to the model)
+					c.goOnly = true
+					z := genTx{isBlob: true, noBlobs: true, inner: c.rng.Bytes(c.rng.Range(1, 60))}
+					zacc := b.AppendBlobTx(&tx.BlobTx{Tx: z.inner})
+					desc += fmt.Sprintf("Z(no blobs, acc=%v) ", zacc)
+					ref := freshNow()
+					if racc := ref.AppendBlobTx(&tx.BlobTx{Tx: z.inner}); racc != zacc || ref.CurrentSize() != b.CurrentSize() {
+						fail("C14", fmt.Sprintf("a blob transaction without blobs is answered acc=%v size=%d after this history, acc=%v size=%d by a fresh builder fed the same accepted appends", zacc, b.CurrentSize(), racc, ref.CurrentSize()))
+						fail("C06", "the running estimate after offering a blob transaction without blobs differs from a fresh builder's")
+					}
+					if zacc {
+						accepted = append(accepted, z)
+						est = est.with(z, sc.thr)
+					}
+				}
 			} else {
 				sawRefusal = true
 				desc += fmt.Sprintf("-%s%d ", kind, len(t.raw))
@@ -1219,7 +1242,9 @@ func streamBHist(c *Ctx) {
 		// C14: a fresh builder fed only the accepted appends
 		fresh, _ := square.NewBuilder(sc.max, sc.thr)
 		for _, t := range accepted {
-			if t.isBlob {
+			if t.noBlobs {
+				fresh.AppendBlobTx(&tx.BlobTx{Tx: t.inner})
+			} else if t.isBlob {
 				btx, _, _ := tx.UnmarshalBlobTx(t.raw)
 				fresh.AppendBlobTx(btx)
 			} else {
